@@ -9,6 +9,7 @@ import Vibrato.Util.Wire
 import Vibrato.Model.Worker
 import Vibrato.Model.Mapper
 import Vibrato.Model.SpecMin
+import Vibrato.Model.DictBigram
 
 namespace Vibrato.Driver.Tok
 open Vibrato Vibrato.Wire
@@ -26,50 +27,77 @@ def hexField (toks : List String) (key : String) : Option (List UInt8) :=
 def parseInts (ts : List String) : Option (List Int) := ts.mapM intOf
 def parseNats (ts : List String) : Option (List Nat) := ts.mapM natOf
 
+/-- KIND 1/2 (`from_readers_with_bigram_info`): the builder model followed by the evaluation of
+the whole cost table with the connector model (`oc = true`: the harness is compiled with
+`overflow-checks = true`).  `.error "costpanic"`: the builder succeeds and `Connector::cost`
+panics for some pair of the table (the harness prints the same word). -/
+def bigramDef (fx : Fixes) (lex right left cost chardef unk : List UInt8) (dual : Bool) :
+    Except String (Outcome DictM) :=
+  match Bigram.buildBigram fx true none lex right left cost chardef unk dual with
+  | .ok B =>
+    match B.table true with
+    | .ok t => .ok (.ok (B.toDict t))
+    | _ => .error "costpanic"
+  | .err => .ok .err
+  | .panic => .ok .panic
+
+/-- diagnostic for a rejected `def`: are all files fine and only a connection id outside the
+connector (`numLeft`, `numRight`)? -/
+def idsOutOfRange (fx : Fixes) (lex chardef unk : List UInt8) (numLeft numRight : Nat) : Bool :=
+  match parseLexCsv fx lex, CharDef.parse chardef, parseLexCsv fx unk with
+  | .ok lrows, .ok P, .ok urows =>
+    match lexOfRows lrows, unkOfRows P urows with
+    | some L, some U =>
+      !(paramsInRange (L.entries.map (·.param)) numLeft numRight) ||
+        !(paramsInRange (U.map (·.param)) numLeft numRight)
+    | _, _ => false
+  | _, _, _ => false
+
 /-- `def` line: returns the model outcome tag and the dictionary. -/
 def handleDef (fx : Fixes) (toks : List String) : String × Option (String × DictM) :=
   match toks with
   | name :: rest =>
-    let r : Option (Outcome DictM) := do
+    let r : Option (Except String (Outcome DictM)) := do
       let kind ← (field rest "KIND").bind natOf
       let lex ← hexField rest "LEX"
       let chardef ← hexField rest "CHAR"
       let unk ← hexField rest "UNK"
       if kind = 0 then
         let matrix ← hexField rest "MATRIX"
-        pure (buildMatrixDict fx lex matrix chardef unk)
+        pure (.ok (buildMatrixDict fx lex matrix chardef unk))
       else
-        -- raw/dual: the connector's cost table is taken from the implementation's dump
-        match rest.dropWhile (· ≠ "IMPL") with
-        | _ :: "ok" :: nr :: nl :: costs => do
-          let nr ← natOf nr
-          let nl ← natOf nl
-          let cs ← parseInts costs
-          pure (buildDictWithConn fx lex chardef unk nr nl cs)
-        | _ :: tag :: _ => if tag = "panic" then pure .panic else pure .err
-        | _ => none
+        -- raw/dual: `SystemDictionaryBuilder::from_readers_with_bigram_info`
+        let right ← hexField rest "RIGHT"
+        let left ← hexField rest "LEFT"
+        let cost ← hexField rest "COST"
+        pure (bigramDef fx lex right left cost chardef unk (kind = 2))
     match r with
     | none => ("badinput", none)
-    | some (.ok D) =>
+    | some (.error s) => (s, none)
+    | some (.ok (.ok D)) =>
       let costs := " ".intercalate (D.conn.map toString)
       (s!"ok {D.numRight} {D.numLeft}" ++ (if D.conn.isEmpty then "" else " " ++ costs), some (name, D))
-    | some .err =>
+    | some (.ok .err) =>
       -- diagnostic: is the rejection due to a connection id outside the connector?
       let why : Option Bool := do
+        let kind ← (field rest "KIND").bind natOf
         let lex ← hexField rest "LEX"
-        let matrix ← hexField rest "MATRIX"
         let chardef ← hexField rest "CHAR"
         let unk ← hexField rest "UNK"
-        match parseLexCsv fx lex, MatrixDef.parse matrix, CharDef.parse chardef, parseLexCsv fx unk with
-        | .ok lrows, .ok M, .ok P, .ok urows =>
-          match lexOfRows lrows, unkOfRows P urows with
-          | some L, some U =>
-            pure (!(paramsInRange (L.entries.map (·.param)) M.numLeft M.numRight) ||
-                  !(paramsInRange (U.map (·.param)) M.numLeft M.numRight))
-          | _, _ => pure false
-        | _, _, _, _ => pure false
+        if kind = 0 then
+          let matrix ← hexField rest "MATRIX"
+          match MatrixDef.parse matrix with
+          | .ok M => pure (idsOutOfRange fx lex chardef unk M.numLeft M.numRight)
+          | _ => pure false
+        else
+          let right ← hexField rest "RIGHT"
+          let left ← hexField rest "LEFT"
+          let cost ← hexField rest "COST"
+          match Bigram.buildConn fx.f14 true none right left cost (kind = 2) with
+          | .ok c => pure (idsOutOfRange fx lex chardef unk c.numLeft c.numRight)
+          | _ => pure false
       (if why == some true then "err ids-out-of-range" else "err", none)
-    | some .panic => ("panic", none)
+    | some (.ok .panic) => ("panic", none)
   | _ => ("badinput", none)
 
 inductive DOp where
